@@ -32,6 +32,9 @@ def swarm(prop, r, tier):
     cfg["neg_source_rs"] = R.chance(0.04)
     cfg["zero_params"] = R.pick([0.0, 0.0, 0.08])
     cfg["sparse"] = R.chance(0.3)
+    cfg["deprecated_iq"] = R.chance(0.25)
+    # nA..uA systems (everything scaled down): same laws, nanowatt losses
+    cfg["micro"] = prop not in ("C03", "C18", "C17") and R.chance(0.07)
     # a random subset of kinds is disabled (swarm)
     kinds = list(KINDS)
     for k in R.sample(ALL_CHILD_KINDS, R.randint(0, 4)):
@@ -68,6 +71,9 @@ def swarm(prop, r, tier):
             cfg["limits"] = R.pick([0.6, 0.9])
             cfg["rt"] = 0.7
             w["edit"] = 4
+            cfg["mega"] = R.chance(0.06)
+            if cfg["mega"]:
+                cfg["tables"] = 0.0
         if prop == "C05":
             cfg["mux"] = 1.0
             cfg["multi_source"] = R.pick([0.5, 1.0])
